@@ -15,7 +15,7 @@ use crate::token::variance::natural::{
 };
 use crate::token::variance::ops::{Conjunction, Disjunction, Product};
 use crate::token::walk::{ChildToken, Fold, Forward, ParentToken, Sequencer};
-use crate::token::{Boundary, BranchKind, LeafKind};
+use crate::token::{Boundary, BranchKind, LeafKind, Token, TokenTopology};
 
 pub use Boundedness::{Bounded, Unbounded};
 
@@ -315,17 +315,40 @@ impl Sequencer for TreeExhaustiveness {
         &mut self,
         parent: ParentToken<'i, 't, A>,
     ) -> impl Iterator<Item = ChildToken<'i, 't, A>> {
-        parent.into_tokens().rev().take_while(|token| {
-            token.as_ref().as_leaf().map_or(true, |leaf| {
-                if let Some(Boundary::Separator) = leaf.boundary() {
-                    true
-                }
-                else {
-                    let breadth = self::term::<Breadth>(leaf);
-                    let text = self::term::<Text>(leaf);
-                    breadth.is_unbounded() && text.is_unbounded()
-                }
-            })
+        fn is_open_leaf(leaf: &LeafKind<'_>) -> bool {
+            if let Some(Boundary::Separator) = leaf.boundary() {
+                true
+            }
+            else {
+                let breadth = self::term::<Breadth>(leaf);
+                let text = self::term::<Text>(leaf);
+                breadth.is_unbounded() && text.is_unbounded()
+            }
+        }
+
+        // A branch token is open if no token in its tree bounds the text that it matches. Tokens
+        // that precede a branch that is not open have no bearing on the tail of a match, just like
+        // tokens that precede a leaf that is not open.
+        fn is_open<A>(token: &Token<'_, A>) -> bool {
+            match token.topology() {
+                TokenTopology::Leaf(ref leaf) => is_open_leaf(leaf),
+                TokenTopology::Branch(ref branch) => branch.tokens().into_inner().iter().all(is_open),
+            }
+        }
+
+        // Only the tokens of conjunctive branches form a sequence (with a tail).
+        let is_conjunctive = parent.as_ref().composition().conjunctive().is_some();
+        let mut is_tail_open = true;
+        parent.into_tokens().rev().take_while(move |token| {
+            let token = token.as_ref();
+            is_tail_open
+                && token.as_leaf().map_or_else(
+                    || {
+                        is_tail_open = !is_conjunctive || is_open(token);
+                        true
+                    },
+                    is_open_leaf,
+                )
         })
     }
 }
